@@ -221,7 +221,7 @@ PLANS["C13"] = dict(
                 runs=(120, 3000), len=40, consts=dict(MaxBatch=8, NV=3, InitVals=[1, 2, 3]))])
 
 LAB = dict(Features=["rewardlab"], Amts=[1, 3], RewardAmts=[1, 3, 7], MaxTime=100000)
-MENU_LAB = {"items": {"mint_b": 5, "transfer_b": 6, "burn_b": 1, "deliver": 5, "index_update": 5, "claim": 5, "bond": 2, "unbond_b": 2, "convert_b_st": 1,
+MENU_LAB = {"items": {"rew_swapdenom": 1, "rew_swap": 1, "mint_b": 5, "transfer_b": 6, "burn_b": 1, "deliver": 5, "index_update": 5, "claim": 5, "bond": 2, "unbond_b": 2, "convert_b_st": 1,
                       "convert_st_b": 1, "bond_st": 1, "from_b": 2, "allow_b": 2, "advance": 2},
             "amax": 40, "dts": [1, 3, 5], "probes": ["claim"], "probe_every": 4}
 # direct (unbacked) mints of millions of bSei make the hub rate tiny; the hub pricing paths are left out of the big-amount lab
